@@ -2,6 +2,7 @@
   C16 — random catalogs: exact size (truncated last chunk); window; joint attributes; re-seeding.
 -/
 import YawVerif.Lemmas.Reader
+import YawVerif.Generated.Randoms
 
 namespace Yaw.C16
 open Yaw Yaw.Rd
@@ -43,6 +44,48 @@ theorem reseed_history_free (g h : GenState) (hs : g.seed = h.seed) (sizes : Lis
     cases g; cases h; simp_all [reseed]
   rw [this]
 
+/-- what a generator can have been used for before: full or partial passes of a reader, probes (centre generation) -/
+inductive Use
+  | pass (sizes : List Nat)
+  | probe (k : Nat)
+
+def use (g : GenState) : Use → GenState
+  | .pass sizes => (pass g sizes).1
+  | .probe k => (draw (reseed g) k).1
+
+theorem pass_seed (g : GenState) (sizes : List Nat) : (pass g sizes).1.seed = g.seed := by
+  unfold pass
+  suffices h : ∀ (acc : GenState × List (Nat × Nat × Nat)),
+      (sizes.foldl (fun acc k => let r := draw acc.1 k; (r.1, acc.2 ++ [r.2])) acc).1.seed = acc.1.seed by
+    simpa [reseed] using h (reseed g, [])
+  induction sizes with
+  | nil => intro acc; rfl
+  | cons k ks ih => intro acc; simp only [List.foldl_cons]; rw [ih]; rfl
+
+/-- no use changes the stored seed … -/
+theorem seed_invariant (g : GenState) (h : List Use) : (h.foldl use g).seed = g.seed := by
+  induction h generalizing g with
+  | nil => rfl
+  | cons u us ih =>
+    simp only [List.foldl_cons]
+    rw [ih]
+    cases u with
+    | pass sizes => exact pass_seed g sizes
+    | probe k => rfl
+
+/-- … hence a generator reproduces the points of its seed NO MATTER HOW OFTEN AND FOR WHAT it was used before
+(any sequence of passes, interrupted passes and probes): the property as stated. -/
+theorem reproducible_after_any_use (g : GenState) (h : List Use) (sizes : List Nat) :
+    (pass (h.foldl use g) sizes).2 = (pass g sizes).2 :=
+  reseed_history_free _ _ (seed_invariant g h) sizes
+
+/-- the shape of the code this state machine abstracts, read off the source on every run: `reseed` rebuilds the
+generator from the stored seed alone and stores a seed only when one is passed; the constructor is the only other
+place a seed is stored; every pass and every probe of the reader starts with an argument-less `reseed()`; the attribute
+draw uses one index array for weights and redshifts (`joint_attributes`). -/
+theorem flags : Gen.reseedFromSeedOnly = true ∧ Gen.passReseedsWithoutArgument = true ∧ Gen.seedAssignments = 1 ∧
+    Gen.attrsOneIndexDraw = true := by decide
+
 /-- the window: y ∈ [sin d₀, sin d₁] is mapped by arcsin into [d₀, d₁] — monotonicity of arcsin is a
     Mathlib fact; here the order-theoretic core: a monotone inverse maps the interval into the interval -/
 theorem window_of_monotone {f g : ℚ → ℚ} (hg : ∀ a b, a ≤ b → g a ≤ g b) (hinv : ∀ d, g (f d) = d)
@@ -58,10 +101,12 @@ theorem joint_attributes (ws zs : List ℚ) (idx : List Nat) (h : ws.length = zs
       (idx.map fun i => zs.getD i 0)[k]? = some (zs.getD row 0) := by
   refine ⟨idx[k], hidx _ (List.getElem_mem hk), ?_, ?_⟩ <;> simp [hk]
 
-theorem glue_pinned : Gen.pinRandomProbe = "0163df6a58e1fbdd" ∧ Gen.pinRandomIter = "68b6757a4ca11947" := by decide
+theorem glue_pinned : Gen.pinRandomProbe = "0163df6a58e1fbdd" ∧ Gen.pinRandomIter = "68b6757a4ca11947" ∧
+    Gen.pinRandomsCall = "04c8f3f1c767f937" ∧ Gen.pinRandomsInit = "493145670e09d4b4" := by decide
 
 /-! non-vacuity -/
 example : randomSizes 10 4 11 0 = [4, 4, 2] := by decide
 example : randomSizes 8 4 9 0 = [4, 4] := by decide
+example : (pass ([Use.probe 5, Use.pass [3, 3]].foldl use ⟨42, 0⟩) [4, 2]).2 = [(42, 0, 4), (42, 4, 2)] := by decide
 
 end Yaw.C16
